@@ -11,6 +11,8 @@ spec -> code : Isolation.tla: interpreter-wide state (parameter enable level, ma
                document processed alone in a fresh interpreter.
 code -> spec : seeded random histories of up to 4 documents x up to 4 features are run the same way; observations and interpreter-wide
                snapshots of every document are validated by TLC against IsolationTrace.tla (verdict names document and field).
+rendering    : for a sample of the random histories every document is also rendered (HTML5, varying split level) and the files of the last
+               one are compared with those of the same document parsed and rendered alone in a fresh interpreter.
 generic      : before and after every document ALL class attributes of all classes defined in plasTeX modules are compared, so that a leak
                through a variable the catalogue does not name is reported with the variable's name.
 """
@@ -239,7 +241,37 @@ def observe(doc, d):
     return obs
 
 
-def run_doc(doc):
+def render_doc(d, variant):
+    """render the parsed document d into a scratch directory; returns {file: text with generated ids renumbered}"""
+    import shutil
+    import tempfile
+    import importlib
+    from .. import render as R
+    tmp = tempfile.mkdtemp(prefix='viso')
+    old = os.getcwd()
+    os.chdir(tmp)
+    try:
+        d.userdata['working-dir'] = tmp
+        d.userdata['jobname'] = 'doc'
+        Rn = importlib.import_module('plasTeX.Renderers.HTML5').Renderer
+        Rn().render(d)
+        out = {}
+        for fn in sorted(os.listdir(tmp)):
+            if fn.endswith('.html'):
+                out[fn] = open(os.path.join(tmp, fn), encoding='utf-8').read()
+        # one renumbering across all files, in file order
+        ids = {}
+
+        def r(m):
+            ids.setdefault(m.group(0), 'ID%d' % len(ids))
+            return ids[m.group(0)]
+        return dict((fn, re.sub(r'\ba\d{10}\b', r, t)) for fn, t in sorted(out.items()))
+    finally:
+        os.chdir(old)
+        shutil.rmtree(tmp, ignore_errors=True)
+
+
+def run_doc(doc, render=None):
     import plasTeX
     from plasTeX.TeX import TeX
     from plasTeX import TeXDocument, Command
@@ -247,7 +279,11 @@ def run_doc(doc):
     class vboom(Command):
         def invoke(self, tex):
             raise RuntimeError('boom')
-    d = TeXDocument()
+    if render is not None:
+        from .. import render as R
+        d = TeXDocument(config=R.make_config('HTML5', {('files', 'split-level'): render, ('general', 'copy-theme-extras'): False}))
+    else:
+        d = TeXDocument()
     d.context.importMacros({'vboom': vboom})
     t = TeX(d)
     t.input(source(doc))
@@ -265,17 +301,23 @@ def run_doc(doc):
             xml = canon(d.toXML())
         except Exception as ex:
             obs = ['observe-raised:%s' % type(ex).__name__]
-    return {'obs': obs, 'exc': exc, 'xml': xml}
+    files = None
+    if render is not None and not aborted and doc['ending'] == 'end':
+        try:
+            files = render_doc(d, render)
+        except Exception as ex:
+            files = {'!raised': '%s: %s' % (type(ex).__name__, ex)}
+    return {'obs': obs, 'exc': exc, 'xml': xml, 'files': files}
 
 
-def run_history(hist):
+def run_history(hist, render=False):
     """in a fresh fork: run all documents; returns per-document obs, snapshots, class-attribute changes and the last document's xml"""
     import logging
     logging.disable(logging.CRITICAL)
     out = {'obs': [], 'snaps': [], 'changed': [], 'exc': []}
     before = class_snapshot()
-    for doc in hist:
-        r = run_doc(doc)
+    for i, doc in enumerate(hist):
+        r = run_doc(doc, ((i + len(hist)) % 3) if render else None)      # split levels 0..2, the last document always gets len(hist)*2 % 3
         out['obs'].append(r['obs'])
         out['exc'].append(r['exc'])
         out['snaps'].append(wide_snapshot())
@@ -283,6 +325,7 @@ def run_history(hist):
         ch = sorted(k for k in before if k in after and before[k] != after[k])
         out['changed'].append([(k, before[k][:60], after[k][:60]) for k in ch[:8]])
         out['xml'] = r['xml']
+        out['files'] = r['files']
     return out
 
 
@@ -317,6 +360,19 @@ def in_fork(fn, arg, timeout=60):
     return pickle.loads(data)
 
 
+def _render_history(hist):
+    return run_history(hist, True)
+
+
+def _render_last(hist):
+    """the last document alone, rendered with the configuration it gets at the end of the history"""
+    import logging
+    logging.disable(logging.CRITICAL)
+    i = len(hist) - 1
+    r = run_doc(hist[-1], (i + len(hist)) % 3)
+    return {'obs': [r['obs']], 'xml': r['xml'], 'files': r['files']}
+
+
 def job(hist):
     st, res = in_fork(run_history, hist)
     if st != 'ok':
@@ -327,6 +383,16 @@ def job(hist):
     res['solo_xml'] = solo['xml']
     res['solo_obs'] = solo['obs'][-1]
     return res
+
+
+def job_render(hist):
+    st, res = in_fork(_render_history, hist, 120)
+    if st != 'ok':
+        return {'machinery': res}
+    st2, solo = in_fork(_render_last, hist, 120)
+    if st2 != 'ok':
+        return {'machinery': solo}
+    return {'files': res['files'], 'solo_files': solo['files'], 'xml': res['xml'], 'solo_xml': solo['xml']}
 
 
 def describe(hist):
@@ -446,6 +512,21 @@ def run(chk):
             chk.violation('trace:%s' % v['field'], 'history %s: document %d: the implementation has %s = %s, the specification %s' % (
                 describe(h), i + 1, v['field'], rr['obs'][i] if v['field'] == 'obs' else rr['snaps'][i].get(v['field']),
                 v['want']['obs'] if v['field'] == 'obs' else v['want']['w'].get(v['field'])), h)
+    # rendered files: every document of the history is parsed AND rendered (different split levels), the last one compared with itself alone
+    nr = 250 if tier == 'quick' else 3000
+    rr = [h for h in rh if h[-1]['ending'] == 'end'][:nr]
+    for h, r in zip(rr, pmap(job_render, rr, chunksize=4)):
+        if 'machinery' in r:
+            raise MachineryError('C17: rendering history %s: %s' % (describe(h), r['machinery']))
+        chk.case(['render', h], True)
+        chk.traces += 1
+        if not r['files'] or '!raised' in r['files'] or not any(fn.endswith('.html') for fn in r['files']):
+            raise MachineryError('C17: rendering %s produced %s' % (describe(h), r['files']))
+        if r['files'] != r['solo_files']:
+            a, b = r['files'] or {}, r['solo_files'] or {}
+            diff = sorted(fn for fn in set(a) | set(b) if a.get(fn) != b.get(fn))
+            chk.violation('render:files', 'the files rendered for the last document of %s differ from those of the same document processed and rendered alone: %s' % (describe(h), diff[:6]), h)
+    chk.extra['histories_rendered'] = len(rr)
     chk.extra['histories_replayed'] = len(uniq)
     chk.extra['random_histories_validated_by_tlc'] = len(lines)
     chk.exhaustive = tier != 'quick'
